@@ -151,20 +151,64 @@ func (p *Program) genFunc(c *Ctx, fn *ssa.Function, ct *Contract) {
 	}
 	// vacuity probe: some normal return must be reachable under the preconditions
 	if len(ct.Ensures) > 0 || ct.NoPanic {
-		c.oblige(&Obligation{Name: c.unitName + "/cover#return", Func: c.unitName, Kind: "cover", Guard: rg, Goal: tFalse, ExpectFail: true,
-			Src: "a normal return is reachable under the preconditions (vacuity guard)", Pos: fmt.Sprintf("%s:%d", ct.File, ct.Line)})
-	}
-	penv := c.contractEnv(ct, sig, nil, fr.params, fn.Pkg.Pkg, post, entry)
-	bindResults(penv, sig, res)
-	// witnesses for replay: parameters and what the contract reads of the entry state
-	for k, e := range ct.Ensures {
-		if e.Tags["thorough"] && c.tier != "thorough" {
-			continue
+		if len(rets) > 6 {
+			// large functions: probe the last return point only (along its own path), the merged probe is too big to be decided sat
+			last := rets[0]
+			for _, r := range rets {
+				if r.block > last.block {
+					last = r
+				}
+			}
+			c.curTop = last.block
+			c.oblige(&Obligation{Name: c.unitName + "/cover#return", Func: c.unitName, Kind: "cover", Guard: last.guard, Goal: tFalse, ExpectFail: true,
+				Src: "the final return is reachable under the preconditions (vacuity guard)", Pos: fmt.Sprintf("%s:%d", ct.File, ct.Line)})
+			c.curTop = -1
+		} else {
+			c.oblige(&Obligation{Name: c.unitName + "/cover#return", Func: c.unitName, Kind: "cover", Guard: rg, Goal: tFalse, ExpectFail: true,
+				Src: "a normal return is reachable under the preconditions (vacuity guard)", Pos: fmt.Sprintf("%s:%d", ct.File, ct.Line)})
 		}
-		goal := c.safeEvalBool(penv, e)
-		o := c.oblige(&Obligation{Name: fmt.Sprintf("%s/ensures#%s", c.unitName, clauseLabel(e, k)), Func: c.unitName, Kind: "ensures",
-			Guard: rg, Goal: goal, Pos: fmt.Sprintf("%s:%d", e.File, e.Line), Src: e.Src, Tags: e.Tags})
-		_ = o
+	}
+	if len(rets) > 6 {
+		// many return points (executors, Run methods): one obligation per return point and clause, over that path's
+		// own state; clauses that are syntactically true at a return point (e.g. "Code == OK ==> ..." at an error
+		// return) produce no obligation
+		for ri, r := range rets {
+			var rv Val
+			switch sig.Results().Len() {
+			case 0:
+			case 1:
+				rv = r.vals[0]
+			default:
+				rv = Val{Tuple: r.vals}
+			}
+			renv := c.contractEnv(ct, sig, nil, fr.params, fn.Pkg.Pkg, r.st, entry)
+			bindResults(renv, sig, rv)
+			for k, e := range ct.Ensures {
+				if e.Tags["thorough"] && c.tier != "thorough" {
+					continue
+				}
+				c.curTop = r.block
+				goal := c.safeEvalBool(renv, e)
+				if goal.S == "true" {
+					c.curTop = -1
+					continue
+				}
+				c.oblige(&Obligation{Name: fmt.Sprintf("%s/ensures#%s@ret%d", c.unitName, clauseLabel(e, k), ri), Func: c.unitName, Kind: "ensures", NoAssume: true,
+					Guard: r.guard, Goal: goal, Pos: fmt.Sprintf("%s:%d", e.File, e.Line), Src: e.Src, Tags: e.Tags})
+				c.curTop = -1
+			}
+		}
+	} else {
+		penv := c.contractEnv(ct, sig, nil, fr.params, fn.Pkg.Pkg, post, entry)
+		bindResults(penv, sig, res)
+		for k, e := range ct.Ensures {
+			if e.Tags["thorough"] && c.tier != "thorough" {
+				continue
+			}
+			goal := c.safeEvalBool(penv, e)
+			c.oblige(&Obligation{Name: fmt.Sprintf("%s/ensures#%s", c.unitName, clauseLabel(e, k)), Func: c.unitName, Kind: "ensures",
+				Guard: rg, Goal: goal, Pos: fmt.Sprintf("%s:%d", e.File, e.Line), Src: e.Src, Tags: e.Tags})
+		}
 	}
 	// frame
 	if ct.ModSet {
